@@ -40,6 +40,9 @@ type C13Scenario struct {
 	Sessions      []C13Session        `json:"sessions"`
 	ReaderStallMs int                 `json:"reader_stall_ms"` // per line, keeps reads open in simulated time
 	Wave2         bool                `json:"wave2"`
+	// HoldS: how long a second-wave reader sits on its first line (5 s; 70 s = a
+	// read queued for more than a minute must still wait for a slot)
+	HoldS int `json:"hold_s,omitempty"`
 	Net           verifsimnet.Profile `json:"net"`
 }
 
@@ -59,7 +62,7 @@ func c13Gen(r *Rand, tier string, i int) Scenario {
 		s := C13Session{Mode: "cat", Files: PickOf(r, 1, 1, 2, 3, 6), Lines: PickOf(r, 5, 40, 120, 250), StartMs: PickOf(r, 0, 0, 0, 1, 5, 50),
 			ResetAtMs: -1, CloseAtMs: -1, PaceMs: PickOf(r, 0, 0, 1, 5)}
 		if r.Bool(0.2) {
-			s.Mode = PickOf(r, "grepmax", "mapcat")
+			s.Mode = PickOf(r, "grepmax", "mapcat", "timeoutcat")
 		} else if r.Bool(0.35) {
 			s.Mode = "tail"
 			s.Files = PickOf(r, 1, 2, 3)
@@ -71,6 +74,13 @@ func c13Gen(r *Rand, tier string, i int) Scenario {
 			s.Denied = PickOf(r, 1, 2, 3, 4)
 		}
 		switch {
+		case s.Mode == "timeoutcat":
+			// ends while its read may still be queued or running
+			if r.Bool(0.5) {
+				s.ResetAtMs = PickOf(r, 50, 200, 500, 2000)
+			} else {
+				s.CloseAtMs = PickOf(r, 50, 200, 500, 2000)
+			}
 		case s.Mode == "tail":
 			if s.BadGz {
 				// end it during one of the retry pauses (they start after ~0, 2, 4 s)
@@ -97,6 +107,7 @@ func c13Gen(r *Rand, tier string, i int) Scenario {
 		sc.Sessions = append(sc.Sessions, s)
 	}
 	sc.Wave2 = r.Bool(0.7)
+	sc.HoldS = PickOf(r, 5, 5, 5, 70)
 	sc.Net = verifsimnet.Profile{LatencyMs: PickOf(r, 0, 1, 3)}
 	return sc
 }
@@ -124,6 +135,9 @@ func c13Run(t *testing.T, s Scenario, src verifsim.DecisionSource, keep bool) *R
 			return 0
 		}
 		held[g.Key] = true
+		if sc.HoldS > 0 {
+			return time.Duration(sc.HoldS) * time.Second
+		}
 		return 5 * time.Second
 	}})
 	var violation, vmsg string
@@ -254,6 +268,11 @@ func c13Run(t *testing.T, s Scenario, src verifsim.DecisionSource, keep bool) *R
 			case "mapcat":
 				rs.Command("map select count($line) group by $hostname interval 1 logformat generic")
 				rs.Command(CatCommand("cat", glob, ""))
+			case "timeoutcat":
+				// what `dmap --timeout N` sends: the read wrapped in a timeout command
+				// (this tree answers "unknown command"; the session is then closed by
+				// the scenario like any other)
+				rs.Command("timeout 120 " + CatCommand("cat", glob, ""))
 			default:
 				rs.Command(CatCommand(ss.Mode, glob, ""))
 			}
@@ -285,7 +304,11 @@ func c13Run(t *testing.T, s Scenario, src verifsim.DecisionSource, keep bool) *R
 				if rs.Ended() || el > deadline {
 					return
 				}
-				w.Sleep(time.Millisecond)
+				if el < time.Second {
+					w.Sleep(time.Millisecond)
+				} else {
+					w.Sleep(25 * time.Millisecond) // long holds: keep the step count bounded
+				}
 			}
 		}
 		for si, ss := range sc.Sessions {
@@ -298,6 +321,13 @@ func c13Run(t *testing.T, s Scenario, src verifsim.DecisionSource, keep bool) *R
 			<-done
 		}
 		w.Sleep(2 * time.Second)
+		if violation == "" {
+			// every session has ended (by itself, closed or reset) two seconds ago:
+			// none of their reads may still hold a file (and so a slot)
+			if c, t := check(w); c+t > 0 {
+				violation, vmsg = "read-outlives-session", fmt.Sprintf("%d cat and %d tail files are still open 2 s after every session of the scenario had ended", c, t)
+			}
+		}
 		if sc.Wave2 && violation == "" {
 			// second wave: 2*limit sessions, one long file each; every reader that
 			// obtains a slot holds it for 5 s, so after 2.5 s exactly `limit` files
@@ -323,6 +353,14 @@ func c13Run(t *testing.T, s Scenario, src verifsim.DecisionSource, keep bool) *R
 			}
 			w.Sleep(2500 * time.Millisecond)
 			wave2Count, _ = check(w)
+			if sc.HoldS > 60 && wave2Count == sc.Cfg.MaxCats {
+				// the readers still hold their slots after a minute: the queued reads
+				// must still be waiting
+				w.Sleep(63 * time.Second)
+				if c, _ := check(w); c != sc.Cfg.MaxCats {
+					wave2Count = c
+				}
+			}
 			for k := 0; k < n2; k++ {
 				verifsim.Yield("harness/waitsessions2")
 				<-done
@@ -405,9 +443,9 @@ func c13Shape(s Scenario) string {
 	sc := s.(*C13Scenario)
 	var ss []string
 	for _, x := range sc.Sessions {
-		ss = append(ss, fmt.Sprintf("%s%dx%d@%d/r%d/c%d/p%d/z%v/d%d", x.Mode[:1], x.Files, x.Lines, x.StartMs, x.ResetAtMs, x.CloseAtMs, x.PaceMs, x.BadGz, x.Denied))
+		ss = append(ss, fmt.Sprintf("%s%dx%d@%d/r%d/c%d/p%d/z%v/d%d", x.Mode, x.Files, x.Lines, x.StartMs, x.ResetAtMs, x.CloseAtMs, x.PaceMs, x.BadGz, x.Denied))
 	}
-	return fmt.Sprintf("cats%d/tails%d/stall%d/w2%v/%s", sc.Cfg.MaxCats, sc.Cfg.MaxTails, sc.ReaderStallMs, sc.Wave2, strings.Join(ss, ","))
+	return fmt.Sprintf("cats%d/tails%d/stall%d/w2%v/hold%d/%s", sc.Cfg.MaxCats, sc.Cfg.MaxTails, sc.ReaderStallMs, sc.Wave2, sc.HoldS, strings.Join(ss, ","))
 }
 
 func c13Sample(s Scenario) any {
